@@ -159,11 +159,12 @@ def run(chk):
     e.func_info(BM, "float.__new__")
     e.func_info(BM, "len")
     for name, dunder in (("int", "__int__"), ("float", "__float__"), ("len", "__len__")):
-        for kind in ("guppy", "guppy:Nat", "guppy:Int", "guppy:Float", "plain"):
+        for kind in ("guppy", "guppy:Nat", "guppy:Int", "guppy:Float", "guppy-struct", "plain"):
             def t(it, name=name, dunder=dunder, kind=kind):
                 bm = e.module(BM)
                 log = []
-                GO = it.lookup_global(e.module(MOD), "GuppyObject")
+                # `guppy-struct`: a struct value (GuppyStructObject) whose type defines the dunder itself
+                GO = it.lookup_global(e.module(MOD), "GuppyStructObject" if kind == "guppy-struct" else "GuppyObject")
                 e.ext_models[f"builtins.{name}"] = Builtin(f"builtins.{name}", lambda *a, **k: (log.append(("builtin", name, a)) or "BUILTIN"))
                 x = SObj(GO, {dunder: Builtin(dunder, lambda *a, **k: (log.append(("dunder", dunder, a)) or "DUNDER"))}) if kind.startswith("guppy") else 42
                 if ":" in kind:
@@ -192,7 +193,8 @@ def run(chk):
                         return z3.BoolVal(isinstance(r, SObj) and r.cls.name == "GuppyObject")     # returning the value itself is the no-op conversion
                     return z3.BoolVal(r == "DUNDER" and log == [("dunder", dunder, ())])
                 return z3.BoolVal(r == "BUILTIN" and log == [("builtin", name, (42,))])
-            chk.prove_paths(f"builtins_mock.{name}[{kind}]:GuppyObject->{dunder}();else->builtins.{name}", paths, post, func=f"{BM}:{name}")
+            chk.prove_paths(f"builtins_mock.{name}[{kind}]:GuppyObject->{dunder}();else->builtins.{name}", paths, post, func=f"{BM}:{name}",
+                            replay=(lambda m_: {"script": REPLAY_STRUCT_DUNDERS, "input": {}}) if kind == "guppy-struct" else None)
             e.ext_models.pop(f"builtins.{name}", None)
 
     # ---- guppy_object_from_py: a Python constant becomes a value of the type regular mode gives the
@@ -537,6 +539,46 @@ for name in ("regular", "traced"):
         res[name] = "rejected: " + str(ex)[:100].replace(chr(10), " ")
 shutil.rmtree(d, ignore_errors=True)
 print(json.dumps({"violates": res["regular"] != res["traced"], "observed": res, "required": "v + w resolves to W.__radd__ in both modes"}))
+'''
+
+
+REPLAY_STRUCT_DUNDERS = r'''
+import guppy_plainbool
+import tempfile, importlib.util, os, sys, shutil
+BODY = "    s = S(x)\n    return int(s) * 100 + int(float(s) * 2.0) * 10 + len(s)\n"
+src = """from guppylang import guppy
+from guppylang.std.builtins import result
+@guppy.struct
+class S:
+    a: int
+    @guppy
+    def __int__(self: "S") -> int:
+        return self.a + 1
+    @guppy
+    def __float__(self: "S") -> float:
+        return 2.5
+    @guppy
+    def __len__(self: "S") -> int:
+        return 3
+@guppy.comptime
+def c(x: int) -> int:
+""" + BODY + """@guppy
+def r(x: int) -> int:
+""" + BODY + """@guppy
+def main() -> None:
+    result("regular", r(7)); result("comptime", c(7))
+"""
+d = tempfile.mkdtemp(dir=os.environ.get("TMPDIR", "/var/tmp")); fn = os.path.join(d, "replay_c21s.py"); open(fn, "w").write(src)
+spec = importlib.util.spec_from_file_location("replay_c21s", fn); m = importlib.util.module_from_spec(spec); sys.modules["replay_c21s"] = m
+spec.loader.exec_module(m)
+try:
+    ent = {t: int(v) for t, v in list(m.main.emulator(n_qubits=1).run().results)[0].entries}
+    out = {"violates": ent.get("comptime") != ent.get("regular"), "observed": ent}
+except Exception as ex:
+    out = {"violates": True, "observed": type(ex).__name__ + ": " + str(ex)[:160]}
+shutil.rmtree(d, ignore_errors=True)
+out["required"] = "int(), float() and len() of a struct defining the dunder give the same value in both modes"
+print(json.dumps(out))
 '''
 
 
